@@ -105,6 +105,15 @@ func cmdReplica(fs *flag.FlagSet, in, out string, seed int64) error {
 	}
 	var refs []*RefRun
 	for i, b := range behaviours {
+		if len(b) > 0 {
+			if g := mMap(b[0], "g"); g != nil {
+				if until := mI64(g, "waitUntil"); until > 0 {
+					for time.Now().Unix() < until {
+						time.Sleep(100 * time.Millisecond)
+					}
+				}
+			}
+		}
 		ref, err := runRef(b, "mem")
 		if err != nil {
 			return fmt.Errorf("behaviour %d: %w", i, err)
